@@ -45,6 +45,26 @@ class GrammarModel:
         for name, (tree, prio) in g.term_defs:
             self.terms[str(name)] = {"tree": tree, "shape": self.render(tree), "priority": prio}
         self.ignore = [str(x) for x in g.ignore]
+        self._g = g
+        self._regex: dict[str, str] | None = None
+
+    def term_regex(self, name: str) -> str | None:
+        """the regular expression lark compiles a terminal to (its definition with every referenced terminal expanded)"""
+        if self._regex is None:
+            self._regex = {}
+            try:
+                import copy
+
+                start = [n for n in self.rules][:1]
+                terms, _rules, _ign = copy.deepcopy(self._g).compile(start, set())
+                for t in terms:
+                    try:
+                        self._regex[str(t.name)] = t.pattern.to_regexp()
+                    except Exception:
+                        pass
+            except Exception as e:
+                raise AnalysisError(f"{GRAMMAR_REL}: terminals cannot be compiled by lark: {type(e).__name__}: {e}")
+        return self._regex.get(name)
 
     # ------------------------------------------------------------------
     def render(self, t, sort_alts: bool = False) -> str:
